@@ -264,6 +264,31 @@ func c23ConfigGen() *rapid.Generator[Config] {
 				Deny:  rapid.SliceOfN(rule, 0, 4).Draw(t, "deny"),
 			})
 		}
+		// the same principal listed again: a later "revocation" entry whose deny rule equals
+		// an allow rule listed earlier (or a later grant equal to an earlier deny), plus
+		// optional extra rules. In-domain: principals[] is a JSON list, names may repeat.
+		if len(cfg.Principals) > 0 && rapid.IntRange(0, 2).Draw(t, "relist") == 0 {
+			src := cfg.Principals[rapid.IntRange(0, len(cfg.Principals)-1).Draw(t, "relistOf")]
+			e := PrincipalRules{Name: src.Name}
+			pick := func(from []Rule, label string) Rule {
+				if len(from) > 0 && rapid.IntRange(0, 3).Draw(t, label+"Copy") > 0 {
+					return from[rapid.IntRange(0, len(from)-1).Draw(t, label+"Idx")]
+				}
+				return rule.Draw(t, label+"Fresh")
+			}
+			switch rapid.IntRange(0, 3).Draw(t, "relistKind") {
+			case 0, 1: // revoke something granted earlier
+				e.Deny = []Rule{pick(src.Allow, "revoke")}
+			case 2: // grant something denied earlier
+				e.Allow = []Rule{pick(src.Deny, "regrant")}
+			default: // grant and revoke the same rule in the new entry
+				r := pick(src.Allow, "both")
+				e.Allow, e.Deny = []Rule{r}, []Rule{r}
+			}
+			e.Allow = append(e.Allow, rapid.SliceOfN(rule, 0, 1).Draw(t, "relistAllow")...)
+			e.Deny = append(e.Deny, rapid.SliceOfN(rule, 0, 1).Draw(t, "relistDeny")...)
+			cfg.Principals = append(cfg.Principals, e)
+		}
 		return cfg
 	})
 }
@@ -404,6 +429,20 @@ func TestVF_C23_Authorizer(t *testing.T) {
 		} else {
 			// the rule arrives in a new principals entry
 			name := rapid.SampledFrom([]string{"p1", "p2", "p3", "anonymous"}).Draw(t, "newEntryName")
+			// often the new entry repeats a rule the principal already has on the other side
+			var other []Rule
+			for _, p := range cfg2.Principals {
+				if p.Name == name {
+					if kind == "deny" {
+						other = append(other, p.Allow...)
+					} else {
+						other = append(other, p.Deny...)
+					}
+				}
+			}
+			if len(other) > 0 && rapid.Bool().Draw(t, "sameAsOtherSide") {
+				r = other[rapid.IntRange(0, len(other)-1).Draw(t, "otherIdx")]
+			}
 			clash := false
 			for _, p := range cfg2.Principals {
 				if strings.TrimSpace(p.Name) == name {
@@ -507,6 +546,20 @@ func TestVF_C23_Exhaustive(t *testing.T) {
 		}
 		return out
 	}
+	// split form: the allow rule in a first entry for p1, the deny rule in a second one
+	mkSplit := func(def string, a, d *Rule, denyFirst bool) Config {
+		pa, pd := PrincipalRules{Name: "p1"}, PrincipalRules{Name: "p1"}
+		if a != nil {
+			pa.Allow = []Rule{*a}
+		}
+		if d != nil {
+			pd.Deny = []Rule{*d}
+		}
+		if denyFirst {
+			return Config{Enabled: true, DefaultPolicy: def, Principals: []PrincipalRules{pd, pa}}
+		}
+		return Config{Enabled: true, DefaultPolicy: def, Principals: []PrincipalRules{pa, pd}}
+	}
 	mk := func(def string, a, d *Rule) Config {
 		p := PrincipalRules{Name: "p1"}
 		if a != nil {
@@ -518,6 +571,8 @@ func TestVF_C23_Exhaustive(t *testing.T) {
 		return Config{Enabled: true, DefaultPolicy: def, Principals: []PrincipalRules{p}}
 	}
 	both := 0
+	splitChecked := 0
+	skipSplit := vfkit.Known(c23FindingDup)
 	for _, def := range []string{"allow", "deny"} {
 		noAllow := make([][]bool, len(rules)) // decisions of (def, no allow rule, deny rule di)
 		noDeny := make([][]bool, len(rules))  // decisions of (def, allow rule ai, no deny rule)
@@ -539,6 +594,20 @@ func TestVF_C23_Exhaustive(t *testing.T) {
 					t.Fatalf("%s", msg)
 				}
 				got := decide(cfg)
+				if a != nil && d != nil && !skipSplit {
+					// listing p1 twice (allow entry + deny entry, either order) must decide
+					// every request like the single merged entry
+					for _, denyFirst := range []bool{false, true} {
+						scfg := mkSplit(def, a, d, denyFirst)
+						sgot := decide(scfg)
+						for i := range reqs {
+							if sgot[i] != got[i] {
+								t.Fatalf("principal listed twice decides %+v = %v, the single entry with the same rules decides %v\nsplit: %s\nsingle: %s", reqs[i], sgot[i], got[i], c23JSON(scfg), c23JSON(cfg))
+							}
+						}
+						splitChecked++
+					}
+				}
 				if a != nil { // cfg = (no allow) + allow rule a
 					for i := range reqs {
 						if noAllow[di][i] && !got[i] {
@@ -564,6 +633,7 @@ func TestVF_C23_Exhaustive(t *testing.T) {
 		}
 	}
 	st.ClassN("configs-with-deny-and-allow-matching-one-request", both)
+	st.ClassN("split-entry-configs-compared-with-merged", splitChecked)
 	st.ClassN("rules-in-alphabet", len(rules)-1)
 	st.ClassN("requests-per-config", len(reqs))
 	st.SetExhaustive(true)
